@@ -39,7 +39,7 @@ RULE = ('Archives: every ordered tar archive of 1..2 members (3 in thorough; qui
         'from 11 sources (files, directories, links to them, directories containing links, trailing "/", "/." and '
         '"/..") x {copy, link, copyout} (pairs: copy/link in quick). Combos: a link/copy reference of a directory '
         'staged before (1-member archives: also after) an :extract of every 1-member archive (2-member in thorough). Manifests: every '
-        'ordered manifest of 1..2 distinct keys (3 in thorough) from {a, a/b, ../x, a/../../x, ./a, <abs>} x {copy, '
+        'ordered manifest of 1..2 distinct keys (3 in thorough) from {a, a/b, ../x, a/../../x, ./a, <abs>, conf} x {copy, '
         'link} (1-key: also the default method; also given as a YAML file), deployed by expandPackageToDirectory and by '
         'experimentFromPackage. A case is non-trivial when the staging/deployment operation was actually executed on '
         'it (package and instance could be set up); distinct = distinct (part, archive/refs/manifest, variant).')
@@ -168,7 +168,9 @@ def _judge(col, case, part, op, root, before, after, allowed, exc, features, rea
         paths = [posixpath.normpath(posixpath.join(root, c['path'])) for c in out]
         ok = bool(features) and reach.explains(paths)
         shape = SB.shape(out)
-        sig = '%s:%s:%s:%s:%s' % (part, op, shape, features or '-', 'explained' if ok else 'UNEXPLAINED')
+        # (both manifest drivers exercise the same deployment code: their failures share one class per shape)
+        where = 'ME:deploy' if part in ('M', 'E') else '%s:%s' % (part, op)
+        sig = '%s:%s:%s:%s' % (where, shape, features or '-', 'explained' if ok else 'UNEXPLAINED')
         why = ('%s changed entries outside %s (%s): %s' %
                (op, target_desc, 'and raised %s' % exc_name if exc_name else 'and returned normally',
                 canon(_stable(SB.brief(out, 6)))))
@@ -746,3 +748,26 @@ KNOWN_SELECTORS = {
     'manifest_dotdot_key': _sel_manifest_dotdot,
     'manifest_key_through_linked_key': _sel_manifest_linked_key,
 }
+
+
+def _sel_manifest_conf_linked(f):
+    """The key `conf` deployed with method link (no other hostile feature in the manifest), and the only entries
+    changed outside the instance directory are the definition files that deployment writes into conf/ (plus the
+    modification time of the folder the link points to)."""
+    if _explained_escape(f, ('M', 'E')) != 'C':
+        return False
+    if not any(posixpath.normpath(k) == 'conf' and m == 'link' for k, m, _ in f['case']['manifest']):
+        return False
+    for c in (f.get('observed') or {}).get('outside') or []:
+        path = c.get('path', '')
+        base = posixpath.basename(path)
+        is_src = re.search(r'/pkg/src\d+$', path) is not None
+        if is_src and c.get('change') == 'modified' and c.get('fields') == ['mtime_ns']:
+            continue
+        if base in SB.DEPLOY_CONF_FILES and re.search(r'/pkg/src\d+/[^/]+$', path) and c.get('change') in ('added', 'modified'):
+            continue
+        return False
+    return True
+
+
+KNOWN_SELECTORS['manifest_conf_key_linked'] = _sel_manifest_conf_linked
